@@ -30,6 +30,14 @@ FORBIDDEN = re.compile(
 )
 
 
+def _big_stack():
+    import resource
+    try:
+        resource.setrlimit(resource.RLIMIT_STACK, (resource.RLIM_INFINITY, resource.RLIM_INFINITY))
+    except (ValueError, OSError):
+        pass
+
+
 def _strip_comments(src: str) -> str:
     out, depth, i = [], 0, 0
     while i < len(src):
@@ -192,7 +200,7 @@ class Check:
             c = subprocess.run(
                 ["ocamlfind", "ocamlopt", "-package", "zarith", "-linkpkg", "-w", "-a",
                  "-I", f"{BUILD}/ocaml", f"{BUILD}/ocaml/model.cmx", f"{BUILD}/ocaml/prelude.cmx", path, "-o", exe],
-                capture_output=True, text=True, cwd=self.rundir)
+                capture_output=True, text=True, cwd=self.rundir, preexec_fn=_big_stack)
             if c.returncode:
                 raise RuntimeError("ocaml compile failed: " + c.stderr[-2000:])
             r = subprocess.run([exe], capture_output=True, text=True)
